@@ -8,36 +8,36 @@ namespace Adaptix.Morph
 open Adaptix.Py
 
 /-- the run was aborted: a non-LoadError exception, or out of fuel -/
-def Stop {α : Type} (o : Outcome α) : Prop := o.isEscape = true ∨ o = .diverge
+def Aborted {α : Type} (o : Outcome α) : Prop := o.isEscape = true ∨ o = .diverge
 
 /-- DISABLE outcome vs FIRST outcome: one of the runs was aborted, or same value, or both
     raise a LoadError -/
-def DF {α : Type} (oD oF : Outcome α) : Prop :=
-  Stop oD ∨ Stop oF ∨ (∃ v, oD = .ok v ∧ oF = .ok v) ∨ (oD.isErr = true ∧ oF.isErr = true)
+def DisFirst {α : Type} (oD oF : Outcome α) : Prop :=
+  Aborted oD ∨ Aborted oF ∨ (∃ v, oD = .ok v ∧ oF = .ok v) ∨ (oD.isErr = true ∧ oF.isErr = true)
 
-theorem modes_stop_escape {α : Type} (x : String) : Stop (Outcome.escape x : Outcome α) := Or.inl rfl
-theorem modes_stop_diverge {α : Type} : Stop (Outcome.diverge : Outcome α) := Or.inr rfl
+theorem modes_stop_escape {α : Type} (x : String) : Aborted (Outcome.escape x : Outcome α) := Or.inl rfl
+theorem modes_stop_diverge {α : Type} : Aborted (Outcome.diverge : Outcome α) := Or.inr rfl
 
-theorem modes_df_refl {α : Type} (o : Outcome α) : DF o o := by
+theorem modes_df_refl {α : Type} (o : Outcome α) : DisFirst o o := by
   cases o with
   | ok v => exact Or.inr (Or.inr (Or.inl ⟨v, rfl, rfl⟩))
   | err e => exact Or.inr (Or.inr (Or.inr ⟨rfl, rfl⟩))
   | escape x => exact Or.inl (modes_stop_escape x)
   | diverge => exact Or.inl modes_stop_diverge
 
-theorem modes_df_err {α : Type} (e e' : LErr) : DF (Outcome.err e : Outcome α) (.err e') :=
+theorem modes_df_err {α : Type} (e e' : LErr) : DisFirst (Outcome.err e : Outcome α) (.err e') :=
   Or.inr (Or.inr (Or.inr ⟨rfl, rfl⟩))
 
 /-- an outcome that is not aborted is a value or a LoadError -/
-theorem modes_not_stop {α : Type} {o : Outcome α} (h : ¬ Stop o) : (∃ v, o = .ok v) ∨ (∃ e, o = .err e) := by
+theorem modes_not_stop {α : Type} {o : Outcome α} (h : ¬ Aborted o) : (∃ v, o = .ok v) ∨ (∃ e, o = .err e) := by
   cases o with
   | ok v => exact Or.inl ⟨v, rfl⟩
   | err e => exact Or.inr ⟨e, rfl⟩
   | escape x => exact absurd (modes_stop_escape x) h
   | diverge => exact absurd modes_stop_diverge h
 
-theorem modes_df_bindO {α β : Type} {o o' : Outcome α} {k k' : α → Outcome β} (h : DF o o')
-    (hk : ∀ x, DF (k x) (k' x)) : DF (bindO o k) (bindO o' k') := by
+theorem modes_df_bindO {α β : Type} {o o' : Outcome α} {k k' : α → Outcome β} (h : DisFirst o o')
+    (hk : ∀ x, DisFirst (k x) (k' x)) : DisFirst (bindO o k) (bindO o' k') := by
   rcases h with h | h | ⟨v, h1, h2⟩ | ⟨h1, h2⟩
   · left; rcases h with h | h
     · cases o <;> simp [Outcome.isEscape] at h; exact modes_stop_escape _
@@ -50,8 +50,8 @@ theorem modes_df_bindO {α β : Type} {o o' : Outcome α} {k k' : α → Outcome
     cases o' <;> simp [Outcome.isErr] at h2
     exact modes_df_err _ _
 
-theorem modes_df_seq {a b : List (Option TrailEl × Outcome Val)} (h : ItemsRel DF a b) :
-    DF (seqDisable a) (seqFirst b) := by
+theorem modes_df_seq {a b : List (Option TrailEl × Outcome Val)} (h : ItemsRel DisFirst a b) :
+    DisFirst (seqDisable a) (seqFirst b) := by
   induction h with
   | nil => exact modes_df_refl _
   | @cons x y as bs hxy _ ih =>
@@ -65,7 +65,7 @@ theorem modes_df_seq {a b : List (Option TrailEl × Outcome Val)} (h : ItemsRel 
       · cases o' <;> simp [Outcome.isEscape] at h; exact modes_stop_escape _
       · subst h; exact modes_stop_diverge
     · simp only at h1 h2; subst h1 h2
-      have : DF (bindO (seqDisable as) fun ys => Outcome.ok (v :: ys))
+      have : DisFirst (bindO (seqDisable as) fun ys => Outcome.ok (v :: ys))
           (bindO (seqFirst bs) fun ys => Outcome.ok (v :: ys)) :=
         modes_df_bindO ih fun _ => modes_df_refl _
       have e1 : seqDisable ((el, Outcome.ok v) :: as) = bindO (seqDisable as) fun ys => Outcome.ok (v :: ys) := by
@@ -81,13 +81,13 @@ theorem modes_df_seq {a b : List (Option TrailEl × Outcome Val)} (h : ItemsRel 
 /-! ### dict: value-first (DISABLE) against key-first (FIRST) -/
 
 theorem modes_stop_seqDisable_cons {el : Option TrailEl} {o : Outcome Val}
-    {rest : List (Option TrailEl × Outcome Val)} (h : Stop o) : Stop (seqDisable ((el, o) :: rest)) := by
+    {rest : List (Option TrailEl × Outcome Val)} (h : Aborted o) : Aborted (seqDisable ((el, o) :: rest)) := by
   rcases h with h | h
   · cases o <;> simp [Outcome.isEscape] at h; exact modes_stop_escape _
   · subst h; exact modes_stop_diverge
 
 theorem modes_stop_seqFirst_cons {el : Option TrailEl} {o : Outcome Val}
-    {rest : List (Option TrailEl × Outcome Val)} (h : Stop o) : Stop (seqFirst ((el, o) :: rest)) := by
+    {rest : List (Option TrailEl × Outcome Val)} (h : Aborted o) : Aborted (seqFirst ((el, o) :: rest)) := by
   rcases h with h | h
   · cases o <;> simp [Outcome.isEscape] at h; exact modes_stop_escape _
   · subst h; exact modes_stop_diverge
@@ -102,12 +102,12 @@ theorem modes_seqFirst_ok_cons (el : Option TrailEl) (v : Val) (rest : List (Opt
 
 /-- the two dict folds: aborted, or both LoadErrors, or the same loaded pairs (listed
     value-first by DISABLE, key-first by FIRST) -/
-def DFdict (oD oF : Outcome (List Val)) : Prop :=
-  Stop oD ∨ Stop oF ∨ (∃ vs, oD = .ok (swapPairs vs) ∧ oF = .ok vs) ∨ (oD.isErr = true ∧ oF.isErr = true)
+def DisFirstDict (oD oF : Outcome (List Val)) : Prop :=
+  Aborted oD ∨ Aborted oF ∨ (∃ vs, oD = .ok (swapPairs vs) ∧ oF = .ok vs) ∨ (oD.isErr = true ∧ oF.isErr = true)
 
 theorem modes_df_dictItems (k v k' v' : Val → Outcome Val) (kvs : List (Val × Val))
-    (h : ∀ p ∈ kvs, DF (k p.1) (k' p.1) ∧ DF (v p.2) (v' p.2)) :
-    DFdict (seqDisable (dictItems true k v kvs)) (seqFirst (dictItems false k' v' kvs)) := by
+    (h : ∀ p ∈ kvs, DisFirst (k p.1) (k' p.1) ∧ DisFirst (v p.2) (v' p.2)) :
+    DisFirstDict (seqDisable (dictItems true k v kvs)) (seqFirst (dictItems false k' v' kvs)) := by
   induction kvs with
   | nil => exact Or.inr (Or.inr (Or.inl ⟨[], rfl, rfl⟩))
   | cons p rest ih =>
@@ -117,9 +117,9 @@ theorem modes_df_dictItems (k v k' v' : Val → Outcome Val) (kvs : List (Val ×
     simp only [dictItems, if_true, Bool.false_eq_true, if_false]
     simp only at hk hv
     -- DISABLE looks at the value first, FIRST at the key first
-    by_cases sv : Stop (v b)
+    by_cases sv : Aborted (v b)
     · exact Or.inl (modes_stop_seqDisable_cons sv)
-    by_cases sk' : Stop (k' a)
+    by_cases sk' : Aborted (k' a)
     · exact Or.inr (Or.inl (modes_stop_seqFirst_cons sk'))
     rcases modes_not_stop sv with ⟨vb, hvb⟩ | ⟨ev, hvb⟩ <;> rcases modes_not_stop sk' with ⟨ka, hka⟩ | ⟨ek, hka⟩
     · -- value ok under DISABLE, key ok under FIRST
@@ -206,12 +206,12 @@ theorem modes_df_dictItems (k v k' v' : Val → Outcome Val) (kvs : List (Val ×
       exact Or.inr (Or.inr (Or.inr ⟨rfl, rfl⟩))
 
 theorem modes_df_loadDict (s : Bool) (k v k' v' : Val → Outcome Val) (d : Val)
-    (hk : ∀ x, DF (k x) (k' x)) (hv : ∀ x, DF (v x) (v' x)) :
-    DF (loadDict ⟨.disable, s⟩ k v d) (loadDict ⟨.first, s⟩ k' v' d) := by
+    (hk : ∀ x, DisFirst (k x) (k' x)) (hv : ∀ x, DisFirst (v x) (v' x)) :
+    DisFirst (loadDict ⟨.disable, s⟩ k v d) (loadDict ⟨.first, s⟩ k' v' d) := by
   rw [modes_loadDict_eq, modes_loadDict_eq]
   split
   · rename_i kvs
-    show DF (bindO (seqDisable (dictItems true k v kvs)) fun flat => buildDict true flat [])
+    show DisFirst (bindO (seqDisable (dictItems true k v kvs)) fun flat => buildDict true flat [])
       (bindO (seqFirst (dictItems false k' v' kvs)) fun flat => buildDict false flat [])
     rcases modes_df_dictItems k v k' v' kvs (fun p _ => ⟨hk p.1, hv p.2⟩) with h | h | ⟨vs, h1, h2⟩ | ⟨h1, h2⟩
     · left; rcases h with h | h
@@ -233,7 +233,7 @@ theorem modes_df_loadDict (s : Bool) (k v k' v' : Val → Outcome Val) (d : Val)
 /-! ### the other constructors -/
 
 theorem modes_df_loadIter (s : Bool) (f : Factory) (e e' : Val → Outcome Val) (d : Val)
-    (h : ∀ x, DF (e x) (e' x)) : DF (loadIter ⟨.disable, s⟩ f e d) (loadIter ⟨.first, s⟩ f e' d) := by
+    (h : ∀ x, DisFirst (e x) (e' x)) : DisFirst (loadIter ⟨.disable, s⟩ f e d) (loadIter ⟨.first, s⟩ f e' d) := by
   unfold loadIter strictExcluded
   simp only
   split
@@ -245,8 +245,8 @@ theorem modes_df_loadIter (s : Bool) (f : Factory) (e e' : Val → Outcome Val) 
         fun _ => modes_df_refl _
 
 theorem modes_df_loadTuple (s : Bool) (F G : Ty → Val → Outcome Val) (elems : List Ty) (d : Val)
-    (h : ∀ t x, DF (F t x) (G t x)) :
-    DF (loadTuple ⟨.disable, s⟩ (elems.map F) d) (loadTuple ⟨.first, s⟩ (elems.map G) d) := by
+    (h : ∀ t x, DisFirst (F t x) (G t x)) :
+    DisFirst (loadTuple ⟨.disable, s⟩ (elems.map F) d) (loadTuple ⟨.first, s⟩ (elems.map G) d) := by
   unfold loadTuple strictExcluded
   simp only [List.length_map]
   split
@@ -263,8 +263,8 @@ theorem modes_df_loadTuple (s : Bool) (F G : Ty → Val → Outcome Val) (elems 
             (modes_df_seq (modes_itemsRel_idx (modes_forall₂_zipApply _ _ _ _ fun p _ => h p.1 p.2)))
             fun _ => modes_df_refl _
 
-theorem modes_df_general {os os' : List (Outcome Val)} (h : All₂ DF os os') (pre : List LErr) :
-    DF (generalUnion .disable os) (unionFirstResult pre os') := by
+theorem modes_df_general {os os' : List (Outcome Val)} (h : Pointwise₂ DisFirst os os') (pre : List LErr) :
+    DisFirst (generalUnion .disable os) (unionFirstResult pre os') := by
   induction h generalizing pre with
   | nil => exact modes_df_err _ _
   | @cons o o' as bs ho _ ih =>
@@ -281,8 +281,8 @@ theorem modes_df_general {os os' : List (Outcome Val)} (h : All₂ DF os os') (p
       rename_i e e'
       simpa [generalUnion, unionFirstResult, firstNonErr, prefixErrs] using ih (pre ++ [e'])
 
-theorem modes_df_wrapOptional (d : Val) {o o' : Outcome Val} (h : DF o o') :
-    DF (wrapOptional .disable d o) (wrapOptional .first d o') := by
+theorem modes_df_wrapOptional (d : Val) {o o' : Outcome Val} (h : DisFirst o o') :
+    DisFirst (wrapOptional .disable d o) (wrapOptional .first d o') := by
   rcases h with h | h | ⟨v, h1, h2⟩ | ⟨h1, h2⟩
   · exact Or.inl h
   · right; left; rcases h with h | h
@@ -294,8 +294,8 @@ theorem modes_df_wrapOptional (d : Val) {o o' : Outcome Val} (h : DF o o') :
     exact modes_df_err _ _
 
 theorem modes_df_loadUnion (s : Bool) (cases : List Ty) (ld ld' : Ty → Val → Outcome Val) (d : Val)
-    (h : ∀ c x, DF (ld c x) (ld' c x)) :
-    DF (loadUnion ⟨.disable, s⟩ cases ld d) (loadUnion ⟨.first, s⟩ cases ld' d) := by
+    (h : ∀ c x, DisFirst (ld c x) (ld' c x)) :
+    DisFirst (loadUnion ⟨.disable, s⟩ cases ld d) (loadUnion ⟨.first, s⟩ cases ld' d) := by
   rw [modes_loadUnion_eq, modes_loadUnion_eq]
   cases singleOptional? cases with
   | some other =>
@@ -306,8 +306,8 @@ theorem modes_df_loadUnion (s : Bool) (cases : List Ty) (ld ld' : Ty → Val →
   | none => exact modes_df_general (modes_all₂_map_ty _ _ _ fun c _ => h c d) []
 
 theorem modes_df_loadModel (s : Bool) (cls : String) (fields : List Field)
-    (fl fl' : Field → Val → Outcome Val) (d : Val) (h : ∀ f x, DF (fl f x) (fl' f x)) :
-    DF (loadModel ⟨.disable, s⟩ cls fields fl d) (loadModel ⟨.first, s⟩ cls fields fl' d) := by
+    (fl fl' : Field → Val → Outcome Val) (d : Val) (h : ∀ f x, DisFirst (fl f x) (fl' f x)) :
+    DisFirst (loadModel ⟨.disable, s⟩ cls fields fl d) (loadModel ⟨.first, s⟩ cls fields fl' d) := by
   unfold loadModel
   split
   · exact modes_df_bindO
@@ -318,7 +318,7 @@ theorem modes_df_loadModel (s : Bool) (cls : String) (fields : List Field)
 
 /-- DISABLE against FIRST at equal fuel -/
 theorem modes_df_load (W : World) (s : Bool) (n : Nat) :
-    ∀ (T : Ty) (d : Val), DF (load W ⟨.disable, s⟩ n T d) (load W ⟨.first, s⟩ n T d) := by
+    ∀ (T : Ty) (d : Val), DisFirst (load W ⟨.disable, s⟩ n T d) (load W ⟨.first, s⟩ n T d) := by
   induction n with
   | zero => intro T d; exact Or.inl modes_stop_diverge
   | succ n ih =>
